@@ -909,7 +909,11 @@ class Watcher(object):
     @property
     def _nextwid(self):
         used_wids = set([p.wid for p in self.processes.values()])
-        all_wids = set(range(1, self.numprocesses * 2 + 1))
+        # a graceful reload runs the old and the new generation side by
+        # side; the old one may be larger than a numprocesses that has just
+        # been lowered: there is always room for one more
+        all_wids = set(range(1, max(self.numprocesses * 2,
+                                    len(self.processes) + 1) + 1))
         available_wids = sorted(all_wids - used_wids)
         try:
             return available_wids[0]
